@@ -3,8 +3,9 @@
 import json, subprocess, sys
 
 ENGINE_NOTE = ("Trusted base: the hand-rolled engine /verif/rt (validated by litmus, interleaving-count and replay self tests), "
-               "memory model M2 of DESIGN §5 (promise-free view semantics, an under-approximation of C11 for relaxed/acquire/release; a SeqCst access = leading SeqCst fence + acquire/release access; "
-               "both engine models give SeqCst accesses fence strength, see DESIGN §5 'Limit'), the cfg(arc_swap_verif) hooks, the instrumented RefCnt pointer VArc, and the stated bounds "
+               "the two verdict memory models of DESIGN §5 (promise-free view semantics, an under-approximation of C11 for relaxed/acquire/release; M2: a SeqCst access = leading SeqCst fence + acquire/release access, "
+               "what every hardware mapping guarantees; M3L: SeqCst accesses ordered only per location plus SeqCst fences and a failing compare-exchange reads the newest value, what Miri implements; "
+               "every instance runs under M2, the small ones with stale reads in their budget also under M3L), the cfg(arc_swap_verif) hooks, the instrumented RefCnt pointer VArc, and the stated bounds "
                "(threads, calls, preemptions, stale reads, spurious CAS failures, free atomic-call placements; 2 fast slots per node in the quick tier, 2 and the shipped 8 in the thorough tier).")
 
 CLAIMED = {
